@@ -30,8 +30,11 @@ RULE = ("accepted texts of the C01 family; for each, every applicable fault "
         "surplus and mismatched closer, unclosed section, missing required "
         "item revealed at a closer or at <t/>, second instance / reused "
         "name) injected at a random applicable position, loaded from the "
-        "main file and again with the culprit line cut into a (possibly "
-        "nested) included resource.  A case is judged only if the reference "
+        "main file, again with the culprit line cut into a (possibly "
+        "nested) included resource, and again from a nameless file object "
+        "(no URL); a third of the texts carry comment/blank lines with "
+        "form feed, NEL, U+2028 and similar characters that are not line "
+        "ends.  A case is judged only if the reference "
         "model confirms the faulted text is rejected while the original is "
         "accepted.  distinct_nontrivial = distinct (fault kind, nesting "
         "depth of culprit, main/included, error class) signatures.")
@@ -46,8 +49,12 @@ ASSUMPTIONS = [
     "accepted as well as its closing line",
     "top-level 'missing' faults have no identifiable line and are excluded",
 ]
-FLOORS = {"quick": {"judged": 6000, "judged_included": 1500},
-          "thorough": {"judged": 300000, "judged_included": 80000}}
+FLOORS = {"quick": {"judged": 20000, "judged_included": 6000,
+                    "judged_without_url": 6000,
+                    "judged_with_exotic_line_break_chars": 4000},
+          "thorough": {"judged": 400000, "judged_included": 100000,
+                       "judged_without_url": 100000,
+                       "judged_with_exotic_line_break_chars": 80000}}
 N_MODELS = {"quick": 400, "thorough": 10000}
 TEXTS = {"quick": 4, "thorough": 10}
 PER_TEXT = {"quick": 8, "thorough": 14}
@@ -56,6 +63,8 @@ RAW_SYNTAX = ["<a b c>", "(x", "<a", "</a", "<>", "< a>", "<a (b)>",
               "%bogus x", "%define", "%include", "%import", "%Define a b",
               "% define a b", "%define 1x v", "</zz>", "</>"]
 BAD_DOLLAR = ["a$", "${x", "$(", "$-", "${x y}"]
+EXOTIC = ["\x0c", "\x0b", "\x85", "\u2028", "\u2029", "\x1c", "\x1d",
+          "\x1e", "\r"]
 
 
 class Marked(str):
@@ -375,6 +384,16 @@ def observe(schema, main):
     return None
 
 
+def observe_text(schema, text):
+    import io
+    import ZConfig
+    try:
+        ZConfig.loadConfigFile(schema, io.StringIO(text))
+    except Exception as e:  # noqa
+        return e
+    return None
+
+
 def judge(ctx, p, rng, dirpath):
     import ZConfig
     res = ctx.res
@@ -393,6 +412,20 @@ def judge(ctx, p, rng, dirpath):
             res.count("culprit_not_found")
             continue
         lines = [l for l, _ in rl]
+        exotic = False
+        if rng.random() < 0.35:
+            # comment / blank lines carrying characters that other line
+            # splitters (str.splitlines) treat as line ends; only "\n" ends
+            # a line of configuration text
+            exotic = True
+            for _ in range(rng.randint(1, 3)):
+                pos = rng.randint(0, len(lines))
+                ch = rng.choice(EXOTIC)
+                extra = rng.choice(["# page" + ch, ch, "# a" + ch + "b",
+                                    "  #" + ch + ch])
+                lines.insert(pos, extra)
+                ok_idx = [i + 1 if (i is not None and i >= pos) else i
+                          for i in ok_idx]
         text = "".join(l + "\n" for l in lines)
         # the reference must agree the fault is effective
         exp = refmatch.conform(p.res, text) if stage not in (
@@ -401,13 +434,13 @@ def judge(ctx, p, rng, dirpath):
         if exp[0] != "reject":
             res.count("fault_not_effective")
             continue
-        for included in (False, True):
+        for included in (False, True, "nourl"):
             marked = list(lines)
             for i in ok_idx:
                 if i is not None:
                     marked[i] = Marked(marked[i])
             layout = None
-            if included:
+            if included is True:
                 layout = _cut_around(rng, marked, ok_idx[0])
                 if layout is None:
                     res.count("not_cuttable")
@@ -426,18 +459,28 @@ def judge(ctx, p, rng, dirpath):
                         fp = os.path.join(dirpath, *rel.split("/"))
                         ln = len(flines) if role == "eof" else n
                         want.append((ln, file_url(fp)))
-            e = observe(p.schema, main)
+            if included == "nourl":
+                # the same text from a file object without a name: no URL
+                want = [(ln, None) for ln, _ in want]
+                e = observe_text(p.schema, layout.texts()["b/main.conf"])
+                res.count("judged_without_url")
+            else:
+                e = observe(p.schema, main)
             res.count("judged")
-            if included:
+            if exotic:
+                res.count("judged_with_exotic_line_break_chars")
+            if included is True:
                 res.count("judged_included")
             depth = len(find_path(root, target) or ()) - 1
             cls = type(e).__name__ if e is not None else "none"
-            res.sig("%s|%d|%s|%s" % (kind, depth, "inc" if included
-                                     else "main", cls))
+            res.sig("%s|%d|%s|%s|%s" % (kind, depth, "nourl" if included ==
+                                        "nourl" else "inc" if included
+                                        else "main", cls, exotic))
             case = {"model": p.model, "files": layout.texts(),
                     "kind": kind, "expected_positions": want,
                     "stage": stage}
-            res.sample("%s-%s" % (kind, "inc" if included else "main"),
+            res.sample("%s-%s" % (kind, "nourl" if included == "nourl" else
+                                  "inc" if included else "main"),
                        dict(case, error=cls), 1)
             check(res, case, e, want, stage, target, kind)
 
@@ -489,7 +532,7 @@ def check(res, case, e, want, stage, target, kind):
                     detail="kind=%s files=%r" % (kind, case["files"]),
                     vsig="nce|%s|%s" % (kind, type(e).__name__))
         return
-    got = (getattr(e, "lineno", None), getattr(e, "url", None))
+    got = (getattr(e, "lineno", None), getattr(e, "url", None) or None)
     if got not in want:
         mech = None
         res.violate("wrong-position", case, [list(w) for w in want],
